@@ -132,10 +132,10 @@ def _machine(rec):
     return machine.make_machine('C02', rec, HIST)
 
 
-HIST = Part('histories', 'machine', run_history, machine=_machine, quick=600, thorough=25600, quick_shards=8,
+HIST = Part('histories', 'machine', run_history, machine=_machine, quick=1500, thorough=25600, quick_shards=8,
             steps=(40, 60))
 HIST.new_harness = new_harness
 PARTS = [
-    Part('programs', 'hyp', run_program, strategy=programs(), quick=1500, thorough=240000, quick_shards=8),
+    Part('programs', 'hyp', run_program, strategy=programs(), quick=4000, thorough=240000, quick_shards=8),
     HIST,
 ]
